@@ -4,7 +4,7 @@
 use crate::world::{AsWorld, Cfg};
 use serde_json::json;
 use std::time::Instant;
-use vcommon::sched::{explore_until, run_one, ExploreStats};
+use vcommon::sched::{run_one, ExploreStats};
 use vcommon::{Ctx, Leg};
 
 pub struct GridSpec {
@@ -20,7 +20,7 @@ pub struct GridSpec {
 pub fn run_grid(ctx: &Ctx, spec: GridSpec) {
     let t0 = Instant::now();
     let n = spec.cfgs.len();
-    if let Ok(ix) = std::env::var("VERIF_TRACE") {
+    if let (Ok(ix), false) = (std::env::var("VERIF_TRACE"), vcommon::sched::is_worker()) {
         // debugging aid: print the canonical execution of one configuration of this leg
         if let Some(cfg) = ix.parse::<usize>().ok().and_then(|i| spec.cfgs.get(i)) {
             eprintln!("--- canonical trace of {} cfg {:?}", spec.name, cfg);
@@ -53,13 +53,10 @@ pub fn run_grid(ctx: &Ctx, spec: GridSpec) {
         }
         spec
     };
-    let results: Vec<Option<ExploreStats>> = vcommon::par_map(&spec.cfgs, vcommon::ncpu(), |_, cfg| {
-        if t0.elapsed().as_secs_f64() > spec.wall_cap_s {
-            return None;
-        }
-        let deadline = t0 + std::time::Duration::from_secs_f64(spec.wall_cap_s);
-        Some(explore_until::<AsWorld>(cfg, spec.bound, spec.max_exec_per_cfg, 1, Some(deadline)))
-    });
+    let results: Vec<Option<ExploreStats>> = match vcommon::sched::grid_explore::<AsWorld>(&spec.name, &spec.cfgs, spec.bound, spec.max_exec_per_cfg, spec.wall_cap_s) {
+        vcommon::sched::GridOutcome::NotMine => return,
+        vcommon::sched::GridOutcome::Done(r) => r,
+    };
     let mut total = ExploreStats::default();
     let mut skipped = 0usize;
     let mut samples = vec![];
